@@ -410,9 +410,32 @@ func (f *frame) predEdge(b *ssa.BasicBlock, predIdx int) string {
 	return f.edgeCond(p, si)
 }
 
+// rangeIterAt finds the map range iterator of the loop whose header is b.
+func (f *frame) rangeIterAt(b *ssa.BasicBlock) string {
+	li := f.loops[b]
+	if li == nil {
+		return ""
+	}
+	for blk := range li.blocks {
+		for _, ins := range blk.Instrs {
+			if nx, ok := ins.(*ssa.Next); ok {
+				if rng, ok := nx.Iter.(*ssa.Range); ok && !li.blocks[rng.Block()] {
+					if it, ok := f.iters[rng]; ok {
+						return it
+					}
+				}
+			}
+		}
+	}
+	return ""
+}
+
 func (f *frame) run() {
 	vc := f.vc
 	fn := f.fn
+	if f.iters == nil {
+		f.iters = map[*ssa.Range]string{}
+	}
 	if len(fn.Blocks) == 0 {
 		vc.unsupported("function %s has no body", fn.Name())
 	}
@@ -421,6 +444,14 @@ func (f *frame) run() {
 	for _, li := range loopList {
 		if f.contract != nil {
 			li.spec = f.contract.Loops[li.ordinal]
+		}
+	}
+	if f.contract != nil && f.top {
+		for ord := range f.contract.Loops {
+			if ord < 1 || ord > len(loopList) {
+				o := f.obligeAt("true", "stale", fmt.Sprintf("loop%d", ord), nil, "false", fn.Pos())
+				o.Src = fmt.Sprintf("the contract has clauses for loop %d but the function has %d loop(s): contract stale", ord, len(loopList))
+			}
 		}
 	}
 	f.blkR = map[*ssa.BasicBlock]string{}
